@@ -110,6 +110,23 @@ func run(r *core.Run) {
 		r.Violate("harness:cli-state", "could not obtain the global state of `fq -n`: "+cliStateErr, nil)
 		return
 	}
+	// shaped option values from the live defaults (see shaped.go)
+	var shaped []shapedOpt
+	{
+		s2, _ := fqrun.NewSession(nil)
+		if outs, err := s2.Eval(cliState(), "_global_state(.) as $_ | options"); err == nil && len(outs) == 1 {
+			if m, ok := fixNumbers(outs[0]).(map[string]any); ok {
+				shaped = shapedOptions(m, thorough)
+			}
+		}
+		s2.Close()
+		if len(shaped) == 0 {
+			r.Violate("harness:shaped-options", "could not read the default option object of fq (options)", nil)
+			return
+		}
+	}
+	var shapedTuples int64
+	nShapedFns := 0
 	fullArity := 2
 	// cap on the full product of one function (only display/2, whose pool has ~120
 	// option objects, exceeds it); above it a reduced shape of pool.go is used
@@ -165,6 +182,41 @@ func run(r *core.Run) {
 			chunks = append(chunks, &chunk{f: f, pool: pool, ts: ts, prog: prog, from: from, to: to, seq: seq})
 			seq++
 		}
+		if f.Key.Arity == 1 && f.ReachesOptions {
+			// one value per jq type / decode value kind as input x every shaped option object
+			p2 := &fnPool{items: append([]poolItem{}, pool.items...), nbase: pool.nbase, optVals: append([]any{}, pool.optVals...)}
+			first := len(p2.items)
+			for _, so := range shaped {
+				p2.items = append(p2.items, poolItem{Expr: so.expr, Type: "shaped"})
+				p2.optVals = append(p2.optVals, so.val)
+			}
+			seenT := map[string]bool{}
+			var ins []int
+			for i := 0; i < pool.nbase; i++ {
+				if t := pool.items[i].Type; !seenT[t] {
+					seenT[t] = true
+					ins = append(ins, i)
+				}
+			}
+			var rows [][]int
+			for _, in := range ins {
+				for j := range shaped {
+					rows = append(rows, []int{in, first + j})
+				}
+			}
+			ts2 := &tupleSpace{k: 2, n: len(p2.items), nbase: p2.nbase, shape: "covering", rows: rows, count: int64(len(rows))}
+			totalTuples += ts2.count
+			shapedTuples += ts2.count
+			nShapedFns++
+			for from := int64(0); from < ts2.count; from += chunkSize {
+				to := from + chunkSize
+				if to > ts2.count {
+					to = ts2.count
+				}
+				chunks = append(chunks, &chunk{f: f, pool: p2, ts: ts2, prog: prog, from: from, to: to, seq: seq})
+				seq++
+			}
+		}
 	}
 
 	if !r.IsChild || r.ShardIdx == 0 {
@@ -178,6 +230,9 @@ func run(r *core.Run) {
 		r.Extra("jq_sources", len(cat.sources))
 		r.Extra("tuples_total", totalTuples)
 		r.Extra("tuples_per_arity", perArity)
+		r.Extra("shaped_option_objects", len(shaped))
+		r.Extra("shaped_option_tuples", shapedTuples)
+		r.Extra("shaped_option_functions", nShapedFns)
 		r.Extra("base_pool", len(basePool(thorough)))
 		r.Extra("option_values_per_key", len(optValues(thorough)))
 		r.Extra("product", "full product of (base pool + option objects of the function) over input and every argument for arity <= 2 "+
